@@ -92,7 +92,7 @@ def make_recording(rng, d, ns, n, name="rec", faults=False):
         ln = int(rng.integers(5, 80))
         raw[a:a + ln, :] = (maxint - 1) * rng.choice([-1, 1])
         sat.append((a, a + ln))
-    sync = rng.integers(0, 2 ** 15, (ns, 1)).astype(np.int16)
+    sync = G.sync_words(rng, (ns, 1))
     rec.raw = np.ascontiguousarray(np.c_[raw, sync])
     rec.sat = sat
     b = G.write(rec, Path(d) / name)
